@@ -17,8 +17,8 @@ def engine(ix, include_pyspark=False) -> Effects:
     k = (id(ix), include_pyspark)
     if k not in _ENGINES:
         eng = Effects(ix, include_pyspark)
-        eng.run(max_rounds=40)
-        if eng.trace and eng.trace[-1][1] != 0:
+        eng.run(max_rounds=60)
+        if eng.trace and eng.trace[-1][2] == -1:
             raise AnalysisError(f"effect summaries did not reach a fixpoint in {eng.rounds} rounds")
         _ENGINES[k] = eng
     return _ENGINES[k]
